@@ -114,6 +114,8 @@ func errKind(err error) int {
 		return 7
 	case err == gocql.ErrTimeoutNoResponse:
 		return 8
+	case err == gocql.ErrConnectionClosed:
+		return 10
 	}
 	return 9
 }
@@ -194,6 +196,8 @@ func runDo(d doScenario) string {
 	var amu sync.Mutex
 	var seen []string
 	var cancel context.CancelFunc
+	var sessMu sync.Mutex
+	var theSession *gocql.Session
 	for ip, n := range cl.Nodes {
 		ip, n := ip, n
 		if dead[ip] {
@@ -213,6 +217,19 @@ func runDo(d doScenario) string {
 				req.Conn.Reply(req.Stream, memcluster.OpResult, memcluster.VoidBody())
 			case f == "l":
 				cancel() // the caller's context ends while the attempt is in flight; no answer
+			case f == "e10":
+				// the connection carrying the attempt is closed locally (e.g. node reported DOWN) while the
+				// request is outstanding: the frame HAS been written, exec returns ErrConnectionClosed
+				sessMu.Lock()
+				ss := theSession
+				sessMu.Unlock()
+				if ss != nil {
+					for _, c := range gocql.VerifSessionConns(ss) {
+						if strings.HasPrefix(c.Address(), ip+":") {
+							go c.Close()
+						}
+					}
+				}
 			default:
 				var kind int
 				fmt.Sscanf(f, "e%d", &kind)
@@ -235,6 +252,9 @@ func runDo(d doScenario) string {
 		return "fatal:" + err.Error()
 	}
 	defer s.Close()
+	sessMu.Lock()
+	theSession = s
+	sessMu.Unlock()
 	sess.WaitConns(s, len(ips), time.Second)
 	var ctx context.Context
 	ctx, cancel = context.WithCancel(context.Background())
@@ -291,7 +311,15 @@ func runDo(d doScenario) string {
 }
 
 // runSpec: speculative execution. Every host answers after `delay`; returns the trace op.
-func runSpec(idem bool, a int, nhosts int, r *vh.Rng) string {
+func allServerConns(cl *memcluster.Cluster) []*memcluster.ServerConn {
+	var out []*memcluster.ServerConn
+	for _, n := range cl.Nodes {
+		out = append(out, n.ServerConns()...)
+	}
+	return out
+}
+
+func runSpec(idem bool, a int, nhosts int, allGone bool, r *vh.Rng) string {
 	var ips []string
 	for i := 1; i <= nhosts; i++ {
 		ips = append(ips, fmt.Sprintf("10.0.0.%d", i))
@@ -331,10 +359,34 @@ func runSpec(idem bool, a int, nhosts int, r *vh.Rng) string {
 	}
 	defer s.Close()
 	sess.WaitConns(s, nhosts, time.Second)
+	if allGone {
+		for _, n := range cl.Nodes {
+			n.DialHook = func(*memcluster.Node, int) error { return errors.New("memcluster: host unreachable") }
+		}
+		for k := 0; k < 200 && len(gocql.VerifSessionConns(s)) > 0; k++ {
+			for _, sc := range allServerConns(cl) {
+				sc.Close()
+			}
+			time.Sleep(2 * time.Millisecond)
+		}
+		nhosts = 0
+	}
 	q := s.Query("PING spec").Idempotent(idem).SetSpeculativeExecutionPolicy(
 		&gocql.SimpleSpeculativeExecution{NumAttempts: a, TimeoutDelay: 3 * time.Millisecond})
 	var got string
-	if err := q.Scan(&got); err != nil {
+	errc := make(chan error, 1)
+	go func() { errc <- q.Scan(&got) }()
+	err = nil
+	select {
+	case err = <-errc:
+	case <-time.After(5 * time.Second):
+		i := 0
+		if idem {
+			i = 1
+		}
+		return fmt.Sprintf("spec %d %d %d %d none hang", i, a, nhosts, atomic.LoadInt64(&nreq))
+	}
+	if err != nil {
 		if err != gocql.ErrNoConnections {
 			return fmt.Sprintf("fatal:%v idem=%v a=%d nhosts=%d conns=%d pool=%v", err, idem, a, nhosts, len(gocql.VerifSessionConns(s)), gocql.VerifPoolState(s))
 		}
@@ -424,6 +476,9 @@ func main() {
 				d.outcomes = append(d.outcomes, kinds[r.Intn(len(kinds))])
 			}
 		}
+		if r.Intn(6) == 0 && !strings.HasPrefix(d.policy, "custom") {
+			d.outcomes = append(d.outcomes, "e10")
+		}
 		scen[i] = d
 	}
 	results := make([]string, runs)
@@ -447,7 +502,7 @@ func main() {
 	}
 	for i := 0; i < runs/40; i++ {
 		idem := r.Intn(3) > 0
-		op := runSpec(idem, r.Intn(4), 1+r.Intn(4), r)
+		op := runSpec(idem, r.Intn(4), 1+r.Intn(4), r.Intn(5) == 0, r)
 		if strings.HasPrefix(op, "fatal") {
 			fmt.Fprintln(os.Stderr, "c13:", op)
 			os.Exit(3)
